@@ -38,10 +38,13 @@ type csCell struct {
 	cbTok string                 // token received by the remote-update callback since the last reset
 	cbVal interface{}
 	cbN   int
+	// panicNext: the application's callback panics the next time it is called (once)
+	panicNext bool
 }
 
 type csWorld struct {
 	tr    *Transport
+	id    ref.Identity
 	conn  *ref.Conn
 	cells []*csCell
 	wo    *csCell // a write-only cell for list reads
@@ -198,6 +201,10 @@ func newCSWorld(seed int64, k int, extraAccessories int) (*csWorld, error) {
 		svc.AddCharacteristic(c)
 		cl := &csCell{name: e.name, obj: obj, c: c}
 		c.OnValueUpdateFromConn(func(conn netConn, ch *characteristic.Characteristic, n, o interface{}) {
+			if cl.panicNext {
+				cl.panicNext = false
+				panic("hcv: the application's remote-update callback panics (PanickyWrite)")
+			}
 			cl.cbVal, cl.cbN = n, cl.cbN+1
 		})
 		w.cells = append(w.cells, cl)
@@ -236,7 +243,7 @@ func newCSWorld(seed int64, k int, extraAccessories int) (*csWorld, error) {
 	if err != nil {
 		return nil, err
 	}
-	w.conn = c
+	w.conn, w.id = c, id
 	return w, nil
 }
 
@@ -382,6 +389,25 @@ func (w *csWorld) runWord(b Beh, cl *csCell) []J {
 			}()
 		case "RemoteWrite":
 			o["http"], o["status"], o["hasstatus"] = w.put(J{"aid": cl.aid, "iid": cl.c.ID, "value": cl.toks[s.Tok]})
+		case "PanickyWrite":
+			// the application's callback panics while the write is announced: the server drops the connection, the
+			// controller connects (and verifies) again
+			cl.panicNext = true
+			o["http"], o["status"], o["hasstatus"] = w.put(J{"aid": cl.aid, "iid": cl.c.ID, "value": cl.toks[s.Tok]})
+			dropped := cl.panicNext == false
+			cl.panicNext = false
+			o["dropped"] = dropped
+			if dropped {
+				w.conn.Close()
+				nc, err := w.tr.verifiedConn(w.id, w.tr.AccessoryLTPK(), w.rng)
+				if err != nil {
+					o["reconnect"] = err.Error()
+				} else {
+					w.conn = nc
+				}
+			}
+		case "RemoteWriteSub":
+			o["http"], o["status"], o["hasstatus"] = w.put(J{"aid": cl.aid, "iid": cl.c.ID, "value": cl.toks[s.Tok], "ev": true})
 		case "RemoteRead":
 			h, hv, v, st, n := w.getOne(cl)
 			o["http"], o["hasvalue"], o["status"], o["n"] = h, hv, st, n
